@@ -383,7 +383,10 @@ def run(chk) -> None:
         if la == "ok":
             continue
         lang = case["seed"]
-        deep = case["big"] >= 3000 and bool({"nestParens", "longExpr", "nestBlocks"} & set(case["faults"]))
+        # "deep": the generated nesting reaches Python's recursion limit (1000 frames, some of them the caller's): the blow-up
+        # size 3000 of the thorough tier, or 300..400 nested blocks in a brace language (three tree levels per block)
+        deep = (case["big"] >= 3000 and bool({"nestParens", "longExpr", "nestBlocks"} & set(case["faults"]))) \
+            or ("nestBlocks" in case["faults"] and lang not in ("python", "script"))
         flood = case["big"] >= 3000 and "quoteFlood" in case["faults"]
         if la == "RuleFailed":
             for f in v["fails"]:
